@@ -97,7 +97,7 @@ BalloonNotPristine(S, S0) ==
             \cup (IF Cardinality(SetOfB(S.free)) = Cardinality(SetOfB(S0.free)) THEN {} ELSE {"freeCpus"})
 
 \* all C02 state predicates over a snapshot, as (predicate, witness) pairs
-BalloonState(S, ctrs, view, live, world, topo, cls) ==
+BalloonState(S, ctrs, view, live, world, topo, cls, excusedSet) ==
     IF S = <<>> THEN {}
     ELSE LET \* containers opted out with cpu.preserve are not handled by the policy at all and legitimately hold nothing
              managed == {c \in DOMAIN ctrs : ctrs[c].st \in {"created", "running"} /\ ~ctrs[c].pcpu /\ c \in live}
@@ -109,7 +109,7 @@ BalloonState(S, ctrs, view, live, world, topo, cls) ==
          IN {<<"Inv_BalloonsDisjoint", w>> : w \in Bad_BalloonsDisjoint(S)}
             \cup {<<"Inv_BalloonsWithinAllowed", w>> : w \in Bad_BalloonOutsideAllowed(S)}
             \cup {<<"Inv_FreeCpusAreUnowned", w>> : w \in Bad_FreeCpus(S)}
-            \cup {<<"Inv_OneBalloonPerCtr", w>> : w \in Bad_OneBalloonPerCtr(S, managed)}
+            \cup {<<"Inv_OneBalloonPerCtr", w>> : w \in Bad_OneBalloonPerCtr(S, managed) \ excusedSet}
             \cup {<<"Inv_SharedIdleNotOwned", w>> : w \in Bad_SharedIdleOwned(S)}
             \cup {<<"Inv_MinMaxCpus", w>> : w \in Bad_MinMaxCpus(S)}
             \cup {<<"Inv_MinMaxInstances", w>> : w \in Bad_MinMaxInstances(S)}
